@@ -76,6 +76,9 @@ def run(ctx):
             k = o.split("=")[0] + ("~" if o.endswith("=~") else "")
             meta["ops"][k] = meta["ops"].get(k, 0) + 1
         lines.append("edit %s %s" % (b.hex(), " ".join(ops)))
+    if ctx.get("replay"):
+        import json
+        lines = [json.load(open(ctx["replay"]))["replay"]["input"]]
     impl, icr = vlib.run_lines(info["wire_h"], lines)
     model, _ = vlib.run_lines(info["model"], lines)
     for line, err in icr:
